@@ -628,7 +628,30 @@ def definite_assignment(chk, c, rule, modules=None):
         params = set(fi.params) | set(fi.kwonly) | {fi.vararg, fi.kwarg}
         glob = {x for n in own_nodes(fi.node) if isinstance(n, (ast.Global, ast.Nonlocal)) for x in n.names}
         reach_cache = {}
+        # names visible from outside the function: module level, enclosing functions, builtins
+        outer = set(dir(__import__('builtins'))) | set(fi.module.assigns) | set(fi.module.functions) | set(fi.module.classes) | \
+            set(fi.module.imports) | {'basestring', 'unicode', 'xrange', 'long', '__file__', '__name__'}
+        for st_ in fi.module.tree.body:
+            for x in ast.walk(st_) if not isinstance(st_, (ast.FunctionDef, ast.ClassDef)) else ():
+                if isinstance(x, ast.Name) and isinstance(x.ctx, ast.Store):
+                    outer.add(x.id)
+                if isinstance(x, (ast.Import, ast.ImportFrom)):
+                    outer |= {(a.asname or a.name).split('.')[0] for a in x.names}
+        o_ = fi.outer
+        while o_ is not None:
+            outer |= set(o_.params) | set(o_.kwonly) | {o_.vararg, o_.kwarg}
+            outer |= {x.id for x in ast.walk(o_.node) if isinstance(x, ast.Name) and isinstance(x.ctx, ast.Store)}
+            outer |= {x.name for x in ast.walk(o_.node) if isinstance(x, (ast.FunctionDef, ast.ClassDef))}
+            o_ = o_.outer
         for n in own_nodes(fi.node):
+            if isinstance(n, ast.Name) and isinstance(n.ctx, ast.Load) and n.id not in binders and n.id not in params and \
+                    n.id not in glob and n.id not in outer and n.id not in comp_bound(n):
+                nuse += 1
+                chk.fail(rule, '%s: `%s` is defined' % (fq, n.id),
+                         'line %d reads `%s`, which is bound nowhere (not a local, parameter, module-level name or builtin): '
+                         'NameError for every call that reaches it' % (n.lineno, n.id), '%s:%d' % (fi.module.relpath, n.lineno),
+                         key='%s|%s|%s|undefined' % (rule, fq, n.id))
+                continue
             if not (isinstance(n, ast.Name) and isinstance(n.ctx, ast.Load) and n.id in binders):
                 continue
             if n.id in params or n.id in glob or n.id in comp_bound(n):
@@ -712,6 +735,59 @@ def call_protocol(chk, c, rule):
                          'the class defines _get_%s/_set_%s but no `%s = property(...)`: the accessors are dead code and `.%s` '
                          'behaves like the base class' % (attr, attr, attr, attr), ci.methods[name].loc,
                          key='%s|property|%s|%s' % (rule, cq, attr))
+    # (d) calls that cannot bind their arguments: too few / too many positional arguments for every possible callee
+    BUILTIN_ARITY = {'delattr': (2, 2), 'setattr': (3, 3), 'getattr': (2, 3), 'hasattr': (2, 2), 'isinstance': (2, 2),
+                     'issubclass': (2, 2), 'len': (1, 1)}
+    for fq, sites in sorted(cg.sites.items()):
+        fi = ix.functions.get(fq)
+        if fi is None:
+            continue
+        for x in own_nodes(fi.node):
+            if isinstance(x, ast.Call) and isinstance(x.func, ast.Name) and x.func.id in BUILTIN_ARITY and not x.keywords and \
+                    not any(isinstance(a, ast.Starred) for a in x.args):
+                lo, hi = BUILTIN_ARITY[x.func.id]
+                n += 1
+                if not lo <= len(x.args) <= hi:
+                    chk.fail(rule, '%s: `%s`' % (fq, norm(x)[:50]), '%s() takes %s argument(s), %d given: TypeError' % (
+                        x.func.id, lo if lo == hi else '%d-%d' % (lo, hi), len(x.args)), '%s:%d' % (fi.module.relpath, x.lineno),
+                        key='%s|arity|%s|%s' % (rule, fq, x.func.id))
+        for s in sites:
+            if s.kind != 'call' or not s.targets or any(t.kind != 'func' for t in s.targets):
+                continue
+            call = s.node
+            if any(isinstance(a, ast.Starred) for a in call.args) or any(k.arg is None for k in call.keywords):
+                continue
+            # only calls whose callee is named directly (a module-level function / class, a method of self / super() / a class):
+            # a local variable or parameter that holds a function may be a wrapper with another signature
+            f_ = call.func
+            local_names = {x.id for x in ast.walk(fi.node) if isinstance(x, ast.Name) and isinstance(x.ctx, ast.Store)} | \
+                set(fi.params) | set(fi.kwonly)
+            direct = (isinstance(f_, ast.Name) and f_.id not in local_names) or \
+                (isinstance(f_, ast.Attribute) and (norm(f_.value) in ('self', 'cls') or norm(f_.value).startswith('super(') or
+                                                    (isinstance(f_.value, ast.Name) and f_.value.id[:1].isupper())))
+            if not direct:
+                continue
+            verdicts = []
+            for t in s.targets:
+                f = t.func
+                a = f.node.args
+                names = [z.arg for z in a.args]
+                if t.bound or (t.ctor is not None):
+                    names = names[1:]
+                ndef = len(a.defaults)
+                required = names[:len(names) - ndef] if ndef else names
+                given_pos = len(call.args)
+                given_kw = {k.arg for k in call.keywords}
+                too_many = given_pos > len(names) and a.vararg is None
+                missing = [p_ for i_, p_ in enumerate(required) if i_ >= given_pos and p_ not in given_kw]
+                verdicts.append((too_many, missing, f.qualname))
+            n += 1
+            if verdicts and all(tm or ms for tm, ms, _ in verdicts):
+                tm, ms, fq2 = verdicts[0]
+                chk.fail(rule, '%s: `%s`' % (fq, norm(call)[:60]),
+                         'the call cannot bind its arguments to %s (%s): TypeError whenever this statement runs' % (
+                             fq2, 'too many positional arguments' if tm else 'missing %s' % ms),
+                         '%s:%d' % (fi.module.relpath, call.lineno), key='%s|bind|%s|%s' % (rule, fq, norm(call.func)[:40]))
     chk.ok(rule, 'definition/use protocol instances examined: %d' % n, '', key='%s|scan' % rule)
     chk.floor('definition/use protocol instances', n, 20)
 
